@@ -43,6 +43,11 @@ func init() {
 			RunRelax(p, r, id, pkgScope(flowAreas[id]...))
 			RunCopyNoop(p, r, pkgScope(flowAreas[id]...))
 			RunFlowMust(p, r, id, pkgScope(flowAreas[id]...))
+			if id == "C13" {
+				r.Engines = append(r.Engines, "statereset(STATE-CLOSE)")
+				r.Explanation += " STATE-CLOSE (intrinsic): every finaliser of a collector with a closing flag (a bool field that another function tests in order to panic: commitChecker.closed, multicommitter.closed) marks the collector closed on every return path, so no range check or commitment callback added later is silently dropped."
+				RunStateClose(p, r, pkgScope(flowAreas[id]...))
+			}
 			if id == "C19" {
 				r.Engines = append(r.Engines, "permagree(PERM-AGREE)")
 				r.Explanation += " PERM-AGREE (intrinsic): rows of the GKR assignment that are permuted in place with utils.Permute(row, p.F) are read back through the same permutation field F (not its inverse, found from `p.B = InvertPermutation(p.A)`), so exported values belong to the instance they are returned for."
